@@ -30,7 +30,8 @@ def items_of(kind, obj):
     if kind == "optical":
         return [(c, w) for c in obj]
     if kind == "data2d":
-        return [(obj._data, w)]
+        inner = getattr(obj, "_data", None)      # the packed-points item has no public name; skipped if it is renamed
+        return [(inner, w)] if inner is not None and hasattr(inner, "nBytes") else []
     return []
 
 
